@@ -74,6 +74,10 @@ def gen_cases(rng, tier):
             out.append({"kind": "ctx", "t": t, "c": tf.gen_ctx(rng)})
         else:
             out.append({"kind": "ctx", "t": g.malformed(d), "c": dict(tf.STR_CTX)})
+    # aggregate FILTER(WHERE ...): several criteria (one call or chained calls) are folded with Criterion.all
+    for i in range(n // 10):
+        calls = [[g0.boolean(rng.choice([0, 1, 2])) for _ in range(rng.choice([1, 1, 2, 3]))] for _ in range(rng.choice([1, 1, 2]))]
+        out.append({"kind": "agg", "func": rng.choice(["SUM", "COUNT", "MAX", "MIN"]), "t": g0.num(rng.choice([0, 1, 2])), "filters": calls})
     return out
 
 
@@ -104,7 +108,12 @@ def corpus():
          ["not", ["cplx", "and", ["basic", "lt", A, B_, None], ["isnull", C_, None], None], None], None],
         ["cplx", "or", ["between", A, B_, C_, None], ["in", A, ["tuple", [["vali", 1, None], ["vali", 2, None]], None], True, None], None],
     ]
-    return [{"kind": "ctx", "t": t, "c": sc} for t in ws]
+    p_ = ["basic", "gt", A, ["vali", 1, None], None]
+    q_ = ["basic", "lt", B_, ["vali", 3, None], None]
+    r_ = ["basic", "ne", C_, ["vali", 0, None], None]
+    aggs = [{"kind": "agg", "func": "SUM", "t": A, "filters": [[["cplx", "or", p_, q_, None], r_]]},
+            {"kind": "agg", "func": "COUNT", "t": B_, "filters": [[p_], [["cplx", "or", q_, r_, None]]]}]
+    return [{"kind": "ctx", "t": t, "c": sc} for t in ws] + aggs
 
 
 # ----------------------------------------------------------------------------------------------
@@ -148,8 +157,19 @@ def case_ctx(case):
     return case["c"] if case["kind"] == "ctx" else POS_CTX[case["pos"]]
 
 
+def _agg_text(case):
+    from pypika import functions as fn
+    f = {"SUM": fn.Sum, "COUNT": fn.Count, "MAX": fn.Max, "MIN": fn.Min}[case["func"]](tf.build(case["t"]))
+    for call in case["filters"]:
+        f = f.filter(*[tf.build(c) for c in call])
+    return f.get_sql(quote_char='"', secondary_quote_char="'")
+
+
 def run_impl(case):
     try:
+        if case["kind"] == "agg":
+            text = _agg_text(case)
+            return {"text": text, "judge": judge_agg(case, text)}
         if case["kind"] == "ctx":
             text = tf.render_impl(case["t"], case["c"])
         else:
@@ -162,6 +182,8 @@ def run_impl(case):
 
 
 def to_coq(case, outcome):
+    if case["kind"] == "agg":
+        return None     # FILTER clauses are not in coq/Terms.v (C18 models their placement); judged by the oracle
     c = case_ctx(case)
     hv = {"same": 1, "differs": 2}.get(outcome["judge"]["verdict"], 0)
     return P(tf.ctx_coq(c), tf.coq(case["t"]), S(outcome["text"]), N(hv))
@@ -463,6 +485,42 @@ def judge(case, text):
     return {"verdict": "same"}
 
 
+def judge_agg(case, text):
+    try:
+        arg = shadow(case["t"])
+        crits = [shadow(c) for call in case["filters"] for c in call]
+    except NotJudged as e:
+        return {"verdict": "not-judged", "why": str(e)}
+    if text.startswith("!"):
+        return {"verdict": "not-judged", "why": "render"}
+    w = None
+    for c in crits:
+        w = explicit(c) if w is None else "((%s) AND (%s))" % (w, explicit(c))
+    ref_sql = "%s((%s)) FILTER (WHERE %s)" % (case["func"], explicit(arg), w)
+    # pypika's text of the same aggregate over the REAL-typed shadow tree
+    try:
+        ptxt = _agg_text({"func": case["func"], "t": arg, "filters": [crits]}) if False else None
+        from pypika import functions as fn
+        f = {"SUM": fn.Sum, "COUNT": fn.Count, "MAX": fn.Max, "MIN": fn.Min}[case["func"]](tf.build(arg))
+        k = 0
+        for call in case["filters"]:
+            f = f.filter(*[tf.build(crits[k + i]) for i in range(len(call))])
+            k += len(call)
+        ptxt = f.get_sql(quote_char='"', secondary_quote_char="'")
+        ref = db().execute("SELECT %s FROM t" % ref_sql).fetchall()
+    except Exception:
+        return {"verdict": "not-judged", "why": "reference rejected"}
+    try:
+        got = db().execute("SELECT %s FROM t" % ptxt).fetchall()
+    except sqlite3.Error as e:
+        return {"verdict": "differs", "detail": "engine rejects %r (%s)" % (ptxt, e), "class": "other",
+                "node": ["agg-filter", "rejected"], "min": case["t"]}
+    if not close(ref[0][0], got[0][0]):
+        return {"verdict": "differs", "detail": "aggregate differs: pypika text %r gives %r, explicit text gives %r" % (ptxt, got[0][0], ref[0][0]),
+                "class": "other", "node": ["agg-filter", "conjunction"], "min": case["t"]}
+    return {"verdict": "same"}
+
+
 def oracle(case, outcome):
     j = outcome.get("judge") or {}
     if j.get("verdict") != "differs":
@@ -475,6 +533,8 @@ def oracle(case, outcome):
 
 def nontrivial_key(case):
     import json
+    if case["kind"] == "agg":
+        return json.dumps(case, sort_keys=True) if sum(len(c) for c in case["filters"]) >= 2 else None
     ops = sum(v for k, v in tf.kinds(case["t"]).items() if k in ("arith", "basic", "cplx", "neg", "not", "in", "between", "case", "func"))
     return json.dumps([case["t"], case_ctx(case)], sort_keys=True) if ops >= 2 else None
 
@@ -482,6 +542,9 @@ def nontrivial_key(case):
 def histogram(cases):
     h = {}
     for c in cases:
+        if c["kind"] == "agg":
+            h["kind=agg"] = h.get("kind=agg", 0) + 1
+            continue
         h["kind=" + c["kind"] + ("/" + c["pos"] if c["kind"] == "pos" else "")] = h.get("kind=" + c["kind"] + ("/" + c["pos"] if c["kind"] == "pos" else ""), 0) + 1
         for k, v in tf.kinds(c["t"]).items():
             h[k] = h.get(k, 0) + v
@@ -506,6 +569,8 @@ def targeted_search(rng, broken, mism_cases):
             out.append({"kind": "ctx", "t": ["cplx", b, p, ["cplx", b2, q_, r, None], None], "c": sc})
             out.append({"kind": "ctx", "t": ["not", ["cplx", b, p, q_, None], None], "c": sc})
     for c in mism_cases:
+        if c["kind"] == "agg":
+            continue
         stack = [c["t"]]
         while stack:
             x = stack.pop()
